@@ -51,6 +51,7 @@ CONSTANTS Nodes,       \* 1..N
           AttachGuard, \* TRUE: attaching (to) an object deleted earlier in the transaction panics; FALSE: as pinned
           SaveGuard,   \* TRUE: the recursive save stops at an object already being saved; FALSE: as pinned
           ObjSeq,      \* all objects in a fixed order (for the JSON projection)
+          HandMode,    \* TRUE: behaviours are steered through the hand-over situation (see Leave)
           Bias,        \* TRUE: pointless steps are pruned (simulation)
           Quiet        \* TRUE: hist is not maintained (pure model checking)
 
@@ -71,7 +72,7 @@ VARIABLES S,       \* the VM/store state threaded through the transcribed code (
 vars == <<S, frame, nops, ntx, held, pre, xr, cur, refok, hist>>
 view == <<S, frame, nops, ntx, held, pre, xr, refok>>
 
-NoP == [here |-> FALSE, slot |-> [k \in K |-> Nil], val |-> 0, rc |-> 0, own |-> Nil, esc |-> FALSE]
+NoP == [here |-> FALSE, slot |-> [k \in K |-> Nil], val |-> 0, rc |-> 0, own |-> Nil, esc |-> FALSE, nt |-> 0]
 NoL == [nc |-> <<>>, ndl |-> <<>>, nel |-> <<>>, up |-> <<>>]
 RootP(o) == [NoP EXCEPT !.here = TRUE, !.rc = 1]
 
@@ -123,9 +124,16 @@ IncChild(s, r, oo, k) ==
             ELSE IncRef([a EXCEPT !.own[c] = oo, !.nr[c] = TRUE], r, c)
        ELSE LET b == MarkDirty(a, r, c)
             IN IF b.esc[c] THEN b ELSE MarkNewEscaped(b, r, c)
+\* assignNewObjectID (1987-2033): the id is minted from the counter (Realm.Time) of the realm whose
+\* PkgID the object carries - a FOREIGN realm's counter when the object was allocated by another
+\* realm and handed over (touchForeignRealm; persisted by the batch at the end of Finalize).
 IncRef(s, r, oo) ==
   IF s.real[oo] THEN s                                               \* recurse guard: id already assigned
-  ELSE IncChild(IncChild([s EXCEPT !.real[oo] = TRUE, !.cr = Append(@, oo)], r, oo, 1), r, oo, 2)
+  ELSE LET q == PkgOf(s, oo)
+           a == [s EXCEPT !.real[oo] = TRUE, !.cr = Append(@, oo),
+                          !.time[q] = @ + 1, !.nt[oo] = s.time[q] + 1,
+                          !.tch = IF q # r THEN @ \cup {q} ELSE @]
+       IN IncChild(IncChild(a, r, oo, 1), r, oo, 2)
 
 RECURSIVE PNC(_, _, _)
 PNC(s, r, i) ==
@@ -193,7 +201,7 @@ SaveObj(s, oo) ==
   LET a == IF s.ne[oo] THEN [s EXCEPT !.ne[oo] = FALSE, !.esc[oo] = TRUE] ELSE s
       unreal == \E k \in K : a.slot[oo][k] # Nil /\ ~a.real[a.slot[oo][k]]
   IN [a EXCEPT !.ps[oo] = [here |-> TRUE, slot |-> a.slot[oo], val |-> a.val[oo], rc |-> a.rc[oo],
-                            own |-> a.own[oo], esc |-> a.esc[oo]],
+                            own |-> a.own[oo], esc |-> a.esc[oo], nt |-> a.nt[oo]],
                !.bad = @ \/ unreal]
 \* B = objects whose save is in progress further up the stack. realm.go as pinned has no such
 \* guard: a new object and a dirty object that refer to each other (both unsaved, neither
@@ -224,7 +232,13 @@ RECURSIVE Remove(_, _)
 Remove(s, i) == IF i > Len(s.dl) THEN s ELSE Remove([s EXCEPT !.ps[s.dl[i]] = NoP], i + 1)
 Clear(s, r) == [s EXCEPT !.L[r] = NoL, !.cr = <<>>, !.dl = <<>>]
 
-Finalize(s, r) == Clear(Remove(Save(MDA(PNE(PND(PNC(s, r, 1), r, 1), r, 1), r), r), 1), r)
+\* lines 529-573: the realm's own counter is persisted when it advanced (SetPackageRealm after the
+\* three mark phases); every touched foreign realm is persisted by the batch at the end.
+Finalize(s, r) ==
+  LET a == PNE(PND(PNC(s, r, 1), r, 1), r, 1)
+      b == IF a.time[r] > s.time[r] THEN [a EXCEPT !.pt[r] = a.time[r]] ELSE a
+      c == Clear(Remove(Save(MDA(b, r), r), 1), r)
+  IN [c EXCEPT !.pt = [q \in Realms |-> IF q \in c.tch THEN c.time[q] ELSE c.pt[q]], !.tch = {}]
 
 \* -------------------------------------------------------------------- declarative layer
 PHere(p) == {o \in Nodes : p[o].here}
@@ -276,8 +290,11 @@ PHashOK(o) == TRUE
 PCnt(p, o) == Cardinality({k \in K : S.ps[p].slot[k] = o})
 POut(p) == {S.ps[p].slot[k] : k \in K} \ {Nil}
 PInDeg(o) == Cardinality({pk \in PIds \X K : S.ps[pk[1]].slot[pk[2]] = o})
+PNewTime(o) == S.ps[o].nt
+PPkgTime(o) == IF o \in RootObjs THEN 0 ELSE S.pt[S.pkg[o]]
 I == INSTANCE RealmInv WITH Ids <- PIds, Counted <- PHere(S.ps), RootIds <- RootObjs, NoId <- Nil, Ext <- {},
-       IsPkg <- PIsPkg, Rc <- PRc, Owner <- POwner, Esc <- PEsc, HashOK <- PHashOK, Cnt <- PCnt, InDeg <- PInDeg, Out <- POut
+       IsPkg <- PIsPkg, Rc <- PRc, Owner <- POwner, Esc <- PEsc, HashOK <- PHashOK, Cnt <- PCnt, InDeg <- PInDeg, Out <- POut,
+       NewTime <- PNewTime, PkgTime <- PPkgTime
 
 AtBoundary == nops = 0 /\ frame = 1
 RefCountExact == AtBoundary => I!RefCountExact
@@ -288,6 +305,10 @@ RECURSIVE PClosure(_)
 PClosure(T) == LET U == T \cup {q \in PIds : \E p \in T : PCnt(p, q) > 0} IN IF U = T THEN T ELSE PClosure(U)
 ReachableUnlessCyclic ==
   AtBoundary => LET R == PClosure(RootObjs) IN \A o \in PIds : o \in R \/ \E p \in PIds \ R : PCnt(p, o) > 0
+\* object ids are never reused: every persisted object's id is at most the PERSISTED counter of its
+\* realm (the next transaction starts from the persisted counter), and no two objects share an id
+IdCounter == AtBoundary => (I!IdCounter /\ \A o, p \in PHere(S.ps) :
+                              (o # p /\ S.pkg[o] = S.pkg[p]) => S.ps[o].nt # S.ps[p].nt)
 NoPanic == ~S.bad        \* single-realm configurations: the transcribed code never panics
 
 \* -------------------------------------------------------------------- the machine
@@ -303,6 +324,12 @@ Blank == [slot |-> [o \in Obj |-> [k \in K |-> Nil]],
           alive |-> {},
           ps |-> [o \in Obj |-> IF o \in RootObjs THEN RootP(o) ELSE NoP],
           L |-> [r \in Realms |-> NoL],
+          time |-> [q \in Realms |-> 0],   \* Realm.Time in memory
+          pt |-> [q \in Realms |-> 0],     \* Realm.Time as persisted (oid:<pkg>:1#realm)
+          pt0 |-> [q \in Realms |-> 0],    \* ... at the start of the transaction (rollback)
+          nt |-> [o \in Obj |-> 0],        \* NewTime of the object id
+          tch |-> {},                      \* touchedForeignRealms of the running finalisation
+          hand |-> FALSE,                  \* see Leave
           cr |-> <<>>, dl |-> <<>>, bad |-> FALSE,
           loop |-> FALSE]   \* the recursive save met an object whose save is in progress
 
@@ -316,6 +343,8 @@ Reload(s) ==
                 !.esc = [o \in Obj |-> s.ps[o].esc],
                 !.pkg = [o \in Nodes |-> IF s.ps[o].here THEN s.pkg[o] ELSE 0],
                 !.alive = PHere(s.ps),
+                !.time = s.pt, !.pt = s.pt, !.pt0 = s.pt,
+                !.nt = [o \in Obj |-> s.ps[o].nt],
                 !.ps = s.ps]
 
 RECURSIVE ReachP(_, _)
@@ -385,11 +414,25 @@ Enter ==
   /\ frame' = 2 /\ xr' = TRUE /\ nops' = nops + 1
   /\ Log(Op("enter", 0, 0, 0))
   /\ UNCHANGED <<S, ntx, held, pre, refok, hist>>
+\* The hand-over situation: realm 2's finalisation mints an id from realm 1's counter (a node that
+\* realm 1 allocated and passed through the crossing call, stored by realm 2) while realm 1's bytes
+\* gained and lost in that finalisation cancel out (it replaces an equal-sized realm-1 node).
+Sz(p) == IF p.here THEN 10 + Cardinality({k \in K : p.slot[k] # Nil}) + (IF p.val # 0 THEN 1 ELSE 0)
+                        + (IF p.own # Nil THEN 1 ELSE 0) + (IF p.esc THEN 1 ELSE 0)
+         ELSE 0
+RECURSIVE SumSz(_, _, _)
+SumSz(s, f, X) == IF X = {} THEN 0 ELSE LET o == CHOOSE x \in X : TRUE
+                                       IN Sz(f.ps[o]) - Sz(s.ps[o]) + SumSz(s, f, X \ {o})
+HandOver(s, f) ==
+  /\ \E o \in Nodes : s.pkg[o] = 1 /\ ~s.real[o] /\ f.real[o] /\ f.ps[o].here
+  /\ \E d \in Nodes : s.pkg[d] = 1 /\ s.ps[d].here /\ ~f.ps[d].here
+  /\ SumSz(s, f, {o \in Nodes : s.pkg[o] = 1}) = 0
+
 \* ... and its return: FinalizeRealmTransaction of realm 2 in the middle of realm 1's transaction.
 \* A panic of the transcribed code (bad) aborts the whole transaction.
 Leave ==
   /\ frame = 2 /\ ~S.bad
-  /\ LET f == Finalize(S, 2) IN S' = IF f.bad THEN [S EXCEPT !.bad = TRUE] ELSE f
+  /\ LET f == Finalize(S, 2) IN S' = IF f.bad THEN [S EXCEPT !.bad = TRUE] ELSE [f EXCEPT !.hand = @ \/ HandOver(S, f)]
   /\ frame' = 1
   /\ Log(Op("leave", 0, 0, 0))
   /\ UNCHANGED <<nops, ntx, held, pre, xr, refok, hist>>
@@ -398,14 +441,15 @@ Leave ==
 \* An aborted transaction leaves the persisted graph as it was.
 Commit ==
   /\ frame = 1 /\ nops > 0
+  /\ HandMode => ((ntx = 0 => xr) /\ (ntx = 1 => S.hand))     \* directed: hand-over, equal-sized replacement, then free
   /\ LET f == IF S.bad THEN S ELSE Finalize(S, 1)
-         n == Reload(IF f.bad THEN [S EXCEPT !.ps = pre] ELSE f)
+         n == Reload(IF f.bad THEN [S EXCEPT !.ps = pre, !.pt = S.pt0] ELSE f)
      IN /\ S' = n
         /\ held' = HeldAtStart(n.ps)
         /\ pre' = n.ps
         /\ refok' = (f.bad \/ Refines(f, pre, ~xr))
         /\ hist' = IF Quiet THEN hist
-                   ELSE Append(hist, [act |-> "Tx", ops |-> cur, xr |-> xr, abort |-> f.bad, loop |-> f.loop, st |-> Proj(n)])
+                   ELSE Append(hist, [act |-> "Tx", ops |-> cur, xr |-> xr, abort |-> f.bad, loop |-> f.loop, hand |-> f.hand /\ ~f.bad, st |-> Proj(n)])
   /\ nops' = 0 /\ ntx' = ntx + 1 /\ xr' = FALSE /\ cur' = <<>>
   /\ UNCHANGED frame
 
@@ -419,5 +463,7 @@ Emit == PrintT(<<"TRACE", ToJson(hist)>>)
 EmitAtEnd == ntx < MaxTx \/ Emit
 EmitEdge == hist' = hist \/ PrintT(<<"EDGE", ToJson(hist')>>)
 \* only the commit edges on which the recursive save meets an object already being saved
+\* complete directed behaviours only
+EmitHandEdge == hist' = hist \/ Len(hist') < MaxTx \/ PrintT(<<"EDGE", ToJson(hist')>>)
 EmitLoopEdge == hist' = hist \/ ~hist'[Len(hist')].loop \/ PrintT(<<"EDGE", ToJson(hist')>>)
 =============================================================================
